@@ -1,0 +1,6 @@
+//go:build !verif
+
+package memberlist
+
+// verifYield is a no-op unless built with the "verif" tag (simulation harness).
+func verifYield(site string, m *Memberlist) {}
